@@ -878,6 +878,13 @@ class ConstructedPayloadDecoderBase(AbstractConstructedPayloadDecoder):
 
                 idx += 1
 
+        # components were put in unchecked, the constraints of the
+        # constructed type itself (size, components presence) apply
+        # to the complete value
+        inconsistency = asn1Object.isInconsistent
+        if inconsistency:
+            raise inconsistency
+
         yield asn1Object
 
     def indefLenValueDecoder(self, substrate, asn1Spec,
@@ -1118,6 +1125,13 @@ class ConstructedPayloadDecoderBase(AbstractConstructedPayloadDecoder):
                 )
 
                 idx += 1
+
+        # components were put in unchecked, the constraints of the
+        # constructed type itself (size, components presence) apply
+        # to the complete value
+        inconsistency = asn1Object.isInconsistent
+        if inconsistency:
+            raise inconsistency
 
         yield asn1Object
 
